@@ -15,16 +15,19 @@ submissions racing `Stop`), task durations and interleavings of submitters, work
 * `c19_parallelism`         from an idle pool, as many mutually waiting tasks as a fresh pool runs together
                             (maxC − 1 on workers plus one on the dispatcher) run together again
 * `c19_panic_contained`     a panicking task leaves worker/dispatcher exactly where a returning one does
-* `c19_no_stuck_partial`    without `Stop`: while a task is pending or running some internal step or task end
-                            is enabled (no deadlock, no stranded task)
-* `c19_completes_partial`   without `Stop`: a finite continuation of the pool's own steps exists after which every
-                            task handed over has run (`done` is a permutation of `handed`); every internal step
-                            decreases a measure
+* `c19_no_stuck`            with or without `Stop`: while a task is owed a run or running some internal step or task
+                            end is enabled (no deadlock, no stranded task)
+* `c19_completes`           with or without `Stop`: a finite continuation of the pool's own steps exists after which
+                            nothing is owed or running and `done ++ dropped ++ stranded` is a permutation of `handed`;
+                            every internal step decreases a measure
+* `c19_lost_only_racing_stop`   dropped / stranded tasks come from `Go` calls that raced or followed `Stop` (`inflight`)
+* `c19_handed_before_stop_runs` a task whose `Go` had returned before `Stop` closed the pool runs, whatever follows
+* `c19_completes_without_stop`  corollary: without `Stop`, `done` is a permutation of `handed`
 * `c19_dropped_only_after_stop`
 * `c19_leak_counterexample`, `c19_serial_after_leak`   the pinned tree (`leak = true`): idle with counter 1,
                             after which two mutually waiting tasks can never run together  (repaired: `fix:` commit)
-* `c19_stop_drop_counterexample`   full statement "handed before Stop ⇒ runs" fails: a queued task is stranded when
-                            the dispatcher takes `<-chClose` (known finding C19-stop-drop)
+* `c19_stop_drop_counterexample`   before the repair of the dispatcher (`nodrain = true`) the full statement failed: a
+                            queued task was stranded when the dispatcher took `<-chClose` (former finding C19-stop-drop)
 
 `timer.Async` (`ExecQ` with `Kind.async`): `c19_async_fifo_exactly_once`, `c19_async_one_at_a_time`,
 `c19_async_completes`. -/
@@ -185,12 +188,15 @@ theorem c19_parallelism_dispatcher (g : Cfg) (s : St) (t : Nat) (hl : g.leak = f
   have hcap' : 0 < g.cap := hcap
   simp [run, step, hfull, hg, hq, hd, hl, hcap']
 
-/-! ### without Stop nothing is stranded -/
+/-! ### nothing is stranded -/
 
-/-- structural facts about `Stop`: the dispatcher only returns after `close(chClose)`, which comes
+/-- the dispatcher has taken `<-chClose` -/
+@[simp] def dClosedPh : Disp → Bool | .exited | .drain | .drunning _ => true | _ => false
+
+/-- structural facts about `Stop`: the dispatcher only leaves its main loop after `close(chClose)`, which comes
     after the addition; tasks are only dropped after the close; the queue never exceeds its capacity -/
 structure SInv (g : Cfg) (s : St) : Prop where
-  exited  : s.disp = .exited → s.closed = true
+  exited  : dClosedPh s.disp = true → s.closed = true
   closed  : s.closed = true → s.stopAdd = true
   dropped : s.dropped ≠ [] → s.closed = true
   qcap    : s.queue.length ≤ g.cap
@@ -245,13 +251,25 @@ theorem sinv_step (g : Cfg) (s s' : St) (a : Act) (h : SInv g s) (hs : step g s 
       · rename_i hc; cases hs; exact ⟨fun _ => hc, h2, h3, h4⟩
       · cases hs
     · cases hs
+  | dDrain =>
+    simp only [step] at hs
+    split at hs
+    · rename_i t q hd hq; cases hs
+      exact ⟨fun _ => h1 (by simp [hd]), h2, h3, by rw [hq] at h4; simp at h4 ⊢; omega⟩
+    · rename_i hd hq; cases hs; exact ⟨fun _ => h1 (by simp [hd]), h2, h3, h4⟩
+    · cases hs
   | dFork =>
     simp only [step] at hs
     split at hs
     · split at hs <;> (cases hs; exact ⟨by simp, h2, h3, h4⟩)
     · cases hs
   | dUndo => simp only [step] at hs; split at hs <;> first | (cases hs; exact ⟨by simp, h2, h3, h4⟩) | cases hs
-  | dFinish p => simp only [step] at hs; split at hs <;> first | (cases hs; exact ⟨by simp, h2, h3, h4⟩) | cases hs
+  | dFinish p =>
+    simp only [step] at hs
+    split at hs
+    · cases hs; exact ⟨by simp, h2, h3, h4⟩
+    · rename_i t hd; cases hs; exact ⟨fun _ => h1 (by simp [hd]), h2, h3, h4⟩
+    · cases hs
   | stopAdd =>
     simp only [step] at hs
     split at hs
@@ -292,74 +310,86 @@ theorem c19_dropped_only_after_stop (g : Cfg) (as : List Act) :
     have := h.dropped (by simp only [s] at hd; rw [hd]; simp)
     simp only [s] at hc; rw [hc] at this; cases this
 
-theorem no_stuck (g : Cfg) (s : St) (hS : SInv g s) (hst : s.stopAdd = false)
-    (hwork : pendingTasks s ≠ [] ∨ runningTasks s ≠ []) :
-    ∃ a, Act.internal a = true ∧ (step g s a).isSome = true := by
-  have hne : s.disp ≠ .exited := by
-    intro he
-    have := hS.closed (hS.exited he)
-    rw [hst] at this; cases this
-  -- the dispatcher, unless blocked in its select on an empty queue, can always move
-  have hdisp : (s.disp ≠ .idle ∨ s.queue ≠ []) → ∃ a, Act.internal a = true ∧ (step g s a).isSome = true := by
-    intro h
-    cases hd : s.disp with
-    | idle =>
-      rcases h with h | h
-      · exact absurd hd h
-      · cases hq : s.queue with
-        | nil => exact absurd hq h
-        | cons t q => exact ⟨.dRecv, rfl, by simp [step, hd, hq]⟩
-    | holding t => exact ⟨.dFork, rfl, by simp only [step, hd]; split <;> simp⟩
-    | failed t => exact ⟨.dUndo, rfl, by simp [step, hd]⟩
-    | running t => exact ⟨.dFinish false, rfl, by simp [step, hd]⟩
-    | exited => exact absurd hd hne
-  by_cases hdq : s.disp ≠ .idle ∨ s.queue ≠ []
-  · exact hdisp hdq
-  · have hdi : s.disp = .idle := by
-      cases hd : s.disp <;> simp [hd] at hdq ⊢
-    have hq : s.queue = [] := by
-      cases hq : s.queue <;> simp [hq] at hdq ⊢
-    rcases hwork with hp | hr
-    · -- pending, dispatcher idle, queue empty: a Go call is in flight
-      cases hgs : s.goers with
-      | nil => simp [pendingTasks, hgs, hq, hdi, dPend] at hp
-      | cons x xs =>
-        cases x with
-        | failed t => exact ⟨.goUndo 0, rfl, by simp [step, hgs]⟩
-        | enq t =>
-          refine ⟨.goEnq 0, rfl, ?_⟩
-          simp only [step, hgs, List.getElem?_cons_zero, hq, List.length_nil]
-          by_cases hc : 0 < g.cap
-          · simp [hc]
-          · have : g.cap = 0 := by omega
-            simp [this, hdi]
-    · -- running, dispatcher idle: a worker runs it
-      simp only [runningTasks, hdi, dRun, List.append_nil] at hr
-      have : ∃ (i : Nat) (t : Nat), s.workers[i]? = some (WPh.running t) := by
-        clear hdq hdisp
-        generalize s.workers = ws at hr
-        induction ws with
-        | nil => simp at hr
-        | cons w ws ih =>
-          cases w with
-          | running t => exact ⟨0, t, rfl⟩
-          | idle =>
-            obtain ⟨i, t, h⟩ := ih (by simpa [List.flatMap_cons, wTask] using hr)
-            exact ⟨i + 1, t, by simpa using h⟩
-          | exiting =>
-            obtain ⟨i, t, h⟩ := ih (by simpa [List.flatMap_cons, wTask] using hr)
-            exact ⟨i + 1, t, by simpa using h⟩
-      obtain ⟨i, t, hw⟩ := this
-      exact ⟨.wFinish i false, rfl, by simp [step, hw]⟩
+/-- tasks the pool still owes a run: in a `Go` call in flight, in the dispatcher's hands, or in the queue while the
+    dispatcher has not returned (what is in the queue after it returned was put there by a `Go` call that raced
+    or followed `Stop`: `linv`) -/
+def owedTasks (s : St) : List Nat :=
+  s.goers.flatMap gTask ++ dPend s.disp ++ (if s.disp = .exited then [] else s.queue)
 
-/-- No stranded task without `Stop` (partial form of "every task handed over runs"): in every reachable
-    state in which `Stop` has not been called, as long as some task is pending (in a `Go` call, in the
-    queue, in the dispatcher's hands) or running, an internal step or a task end is enabled — there is no
-    deadlock, the pool cannot sit idle on a queued task.
-    The hypothesis `stopAdd = false` cannot be dropped: `c19_stop_drop_counterexample`. -/
-theorem c19_no_stuck_partial (g : Cfg) (as : List Act) :
-    (run g init as).stopAdd = false →
-    (pendingTasks (run g init as) ≠ [] ∨ runningTasks (run g init as) ≠ []) →
+theorem worker_running_exists : ∀ (ws : List WPh), ws.flatMap wTask ≠ [] →
+    ∃ (i : Nat) (t : Nat), ws[i]? = some (WPh.running t) := by
+  intro ws
+  induction ws with
+  | nil => intro hr; simp at hr
+  | cons w ws ih =>
+    intro hr
+    cases w with
+    | running t => exact ⟨0, t, rfl⟩
+    | idle =>
+      obtain ⟨i, t, h⟩ := ih (by simpa [List.flatMap_cons, wTask] using hr)
+      exact ⟨i + 1, t, by simpa using h⟩
+    | exiting =>
+      obtain ⟨i, t, h⟩ := ih (by simpa [List.flatMap_cons, wTask] using hr)
+      exact ⟨i + 1, t, by simpa using h⟩
+
+theorem no_stuck (g : Cfg) (s : St) (hS : SInv g s)
+    (hwork : owedTasks s ≠ [] ∨ runningTasks s ≠ []) :
+    ∃ a, Act.internal a = true ∧ (step g s a).isSome = true := by
+  -- a Go call in flight can always move: decrement, then send (room / rendezvous) or, after the close, give up
+  have hgo : ∀ (x : GoPh) (xs : List GoPh), s.goers = x :: xs → (s.queue = [] ∧ s.disp = .idle) ∨ s.closed = true →
+      ∃ a, Act.internal a = true ∧ (step g s a).isSome = true := by
+    intro x xs hgs hor
+    cases x with
+    | failed t => exact ⟨.goUndo 0, rfl, by simp [step, hgs]⟩
+    | enq t =>
+      rcases hor with ⟨hq, hdi⟩ | hc
+      · refine ⟨.goEnq 0, rfl, ?_⟩
+        simp only [step, hgs, List.getElem?_cons_zero, hq, List.length_nil]
+        by_cases hc : 0 < g.cap
+        · simp [hc]
+        · have : g.cap = 0 := by omega
+          simp [this, hdi]
+      · exact ⟨.goDrop 0, rfl, by simp [step, hgs, hc]⟩
+  -- a running task on a worker can end
+  have hrun : s.workers.flatMap wTask ≠ [] → ∃ a, Act.internal a = true ∧ (step g s a).isSome = true := by
+    intro hr
+    obtain ⟨i, t, hw⟩ := worker_running_exists s.workers hr
+    exact ⟨.wFinish i false, rfl, by simp [step, hw]⟩
+  cases hd : s.disp with
+  | holding t => exact ⟨.dFork, rfl, by simp only [step, hd]; split <;> simp⟩
+  | failed t => exact ⟨.dUndo, rfl, by simp [step, hd]⟩
+  | running t => exact ⟨.dFinish false, rfl, by simp [step, hd]⟩
+  | drunning t => exact ⟨.dFinish false, rfl, by simp [step, hd]⟩
+  | drain =>
+    cases hq : s.queue with
+    | nil => exact ⟨.dDrain, rfl, by simp [step, hd, hq]⟩
+    | cons t q => exact ⟨.dDrain, rfl, by simp [step, hd, hq]⟩
+  | idle =>
+    cases hq : s.queue with
+    | cons t q => exact ⟨.dRecv, rfl, by simp [step, hd, hq]⟩
+    | nil =>
+      cases hgs : s.goers with
+      | cons x xs => exact hgo x xs hgs (.inl ⟨hq, hd⟩)
+      | nil =>
+        rcases hwork with hp | hr
+        · simp [owedTasks, hgs, hq, hd, dPend] at hp
+        · simp only [runningTasks, hd, dRun, List.append_nil] at hr
+          exact hrun hr
+  | exited =>
+    have hc : s.closed = true := hS.exited (by simp [hd])
+    cases hgs : s.goers with
+    | cons x xs => exact hgo x xs hgs (.inr hc)
+    | nil =>
+      rcases hwork with hp | hr
+      · simp [owedTasks, hgs, hd, dPend] at hp
+      · simp only [runningTasks, hd, dRun, List.append_nil] at hr
+        exact hrun hr
+
+/-- No stranded task, no deadlock — **with or without `Stop`**: in every reachable state, as long as some task is
+    owed a run (in a `Go` call, in the dispatcher's hands, in the queue while the dispatcher goroutine lives) or is
+    running, an internal step or a task end is enabled: the pool cannot sit on a task. -/
+theorem c19_no_stuck (g : Cfg) (as : List Act) :
+    (owedTasks (run g init as) ≠ [] ∨ runningTasks (run g init as) ≠ []) →
     ∃ a, Act.internal a = true ∧ (step g (run g init as) a).isSome = true :=
   no_stuck g _ (sinv_run g as init (sinv_init g))
 
@@ -367,7 +397,8 @@ theorem c19_no_stuck_partial (g : Cfg) (as : List Act) :
 
 def wWeight : WPh → Nat | .running _ => 4 | .idle => 2 | .exiting => 1
 def gWeight : GoPh → Nat | .failed _ => 10 | .enq _ => 9
-def dWeight : Disp → Nat | .holding _ => 7 | .failed _ => 6 | .running _ => 4 | .idle => 1 | .exited => 0
+def dWeight : Disp → Nat
+  | .holding _ => 7 | .failed _ => 6 | .running _ => 4 | .drunning _ => 4 | .idle => 2 | .drain => 1 | .exited => 0
 
 /-- a measure that every internal step and every task end decreases -/
 def mu (s : St) : Nat :=
@@ -402,7 +433,7 @@ theorem sum_map_eraseIdx {α : Type} (f : α → Nat) : ∀ (l : List α) (i : N
       simp at this ⊢; omega
 
 theorem internal_decreases (g : Cfg) (s s' : St) (a : Act) (ha : Act.internal a = true)
-    (hs : step g s a = some s') : mu s' < mu s ∧ s'.handed = s.handed ∧ s'.stopAdd = s.stopAdd := by
+    (hs : step g s a = some s') : mu s' < mu s ∧ s'.handed = s.handed ∧ s'.stopAdd = s.stopAdd ∧ s'.closed = s.closed := by
   cases a with
   | go t => simp [Act.internal] at ha
   | stopAdd => simp [Act.internal] at ha
@@ -493,8 +524,18 @@ theorem internal_decreases (g : Cfg) (s s' : St) (a : Act) (ha : Act.internal a 
     split at hs
     · rename_i hd
       split at hs
-      · cases hs; simp [mu, dWeight, hd]
+      · cases hs; cases g.nodrain <;> simp [mu, dWeight, hd]
       · cases hs
+    · cases hs
+  | dDrain =>
+    simp only [step] at hs
+    split at hs
+    · rename_i t q hd hq
+      cases hs
+      simp [mu, dWeight, hd, hq]; omega
+    · rename_i hd hq
+      cases hs
+      simp [mu, dWeight, hd, hq]
     · cases hs
   | dFork =>
     simp only [step] at hs
@@ -515,30 +556,33 @@ theorem internal_decreases (g : Cfg) (s s' : St) (a : Act) (ha : Act.internal a 
     · rename_i t hd
       cases hs
       simp [mu, dWeight, hd]
+    · rename_i t hd
+      cases hs
+      simp [mu, dWeight, hd]
     · cases hs
 
-theorem completes_aux (g : Cfg) : ∀ (n : Nat) (s : St), SInv g s → s.stopAdd = false → mu s ≤ n →
-    ∃ bs, (∀ b ∈ bs, Act.internal b = true) ∧ pendingTasks (run g s bs) = [] ∧ runningTasks (run g s bs) = [] ∧
-      (run g s bs).handed = s.handed ∧ (run g s bs).stopAdd = false := by
+theorem completes_aux (g : Cfg) : ∀ (n : Nat) (s : St), SInv g s → mu s ≤ n →
+    ∃ bs, (∀ b ∈ bs, Act.internal b = true) ∧ owedTasks (run g s bs) = [] ∧ runningTasks (run g s bs) = [] ∧
+      (run g s bs).handed = s.handed ∧ (run g s bs).closed = s.closed := by
   intro n
   induction n with
   | zero =>
-    intro s hS hst hm
-    by_cases hw : pendingTasks s ≠ [] ∨ runningTasks s ≠ []
-    · obtain ⟨a, ha, hen⟩ := no_stuck g s hS hst hw
+    intro s hS hm
+    by_cases hw : owedTasks s ≠ [] ∨ runningTasks s ≠ []
+    · obtain ⟨a, ha, hen⟩ := no_stuck g s hS hw
       obtain ⟨s1, hs1⟩ := Option.isSome_iff_exists.mp hen
       have := (internal_decreases g s s1 a ha hs1).1
       omega
-    · have hp : pendingTasks s = [] := Classical.byContradiction fun h => hw (.inl h)
+    · have hp : owedTasks s = [] := Classical.byContradiction fun h => hw (.inl h)
       have hr : runningTasks s = [] := Classical.byContradiction fun h => hw (.inr h)
-      exact ⟨[], by simp, hp, hr, rfl, hst⟩
+      exact ⟨[], by simp, hp, hr, rfl, rfl⟩
   | succ n ih =>
-    intro s hS hst hm
-    by_cases hw : pendingTasks s ≠ [] ∨ runningTasks s ≠ []
-    · obtain ⟨a, ha, hen⟩ := no_stuck g s hS hst hw
+    intro s hS hm
+    by_cases hw : owedTasks s ≠ [] ∨ runningTasks s ≠ []
+    · obtain ⟨a, ha, hen⟩ := no_stuck g s hS hw
       obtain ⟨s1, hs1⟩ := Option.isSome_iff_exists.mp hen
-      obtain ⟨hlt, hh, hsa⟩ := internal_decreases g s s1 a ha hs1
-      obtain ⟨bs, h1, h2, h3, h4, h5⟩ := ih s1 (sinv_step g s s1 a hS hs1) (by rw [hsa]; exact hst) (by omega)
+      obtain ⟨hlt, hh, _, hcl⟩ := internal_decreases g s s1 a ha hs1
+      obtain ⟨bs, h1, h2, h3, h4, h5⟩ := ih s1 (sinv_step g s s1 a hS hs1) (by omega)
       refine ⟨a :: bs, ?_, ?_, ?_, ?_, ?_⟩
       · intro b hb
         rcases List.mem_cons.mp hb with hb | hb
@@ -548,63 +592,453 @@ theorem completes_aux (g : Cfg) : ∀ (n : Nat) (s : St), SInv g s → s.stopAdd
       · exact h2
       · exact h3
       · rw [h4, hh]
-      · exact h5
-    · have hp : pendingTasks s = [] := Classical.byContradiction fun h => hw (.inl h)
+      · rw [h5, hcl]
+    · have hp : owedTasks s = [] := Classical.byContradiction fun h => hw (.inl h)
       have hr : runningTasks s = [] := Classical.byContradiction fun h => hw (.inr h)
-      exact ⟨[], by simp, hp, hr, rfl, hst⟩
+      exact ⟨[], by simp, hp, hr, rfl, rfl⟩
 
-/-- Exactly-once, liveness half (no `Stop`): from every reachable state in which `Stop` has not been
-    called there is a finite continuation consisting only of the pool's own steps and task ends (no new
-    `Go`, no `Stop`) after which **every task handed over so far has run**: nothing is pending, nothing is
-    running, nothing was dropped, and `done` is a permutation of `handed` (with `c19_at_most_once`: each
-    exactly once).  Every internal step decreases a measure, so under a fair scheduler with terminating
-    tasks every schedule is such a continuation.  The hypothesis `stopAdd = false` is necessary
-    (`c19_stop_drop_counterexample`). -/
-theorem c19_completes_partial (g : Cfg) (as : List Act) (hst : (run g init as).stopAdd = false) :
+theorem run_append (g : Cfg) (as bs : List Act) : ∀ s0, run g (run g s0 as) bs = run g s0 (as ++ bs) := by
+  induction as with
+  | nil => intro s0; rfl
+  | cons a as ih =>
+    intro s0
+    simp only [List.cons_append, run]
+    split <;> exact ih _
+
+/-! ### what `Stop` may leave behind: only tasks whose `Go` call raced or followed it -/
+
+theorem mem_gTask_set (l : List GoPh) (i t x : Nat) (h : l[i]? = some (.failed t))
+    (hx : x ∈ (l.set i (.enq t)).flatMap gTask) : x ∈ l.flatMap gTask := by
+  obtain ⟨a, ha, hxa⟩ := List.mem_flatMap.mp hx
+  rcases List.mem_or_eq_of_mem_set ha with ha | ha
+  · exact List.mem_flatMap.mpr ⟨a, ha, hxa⟩
+  · subst ha
+    simp [gTask] at hxa
+    subst hxa
+    exact List.mem_flatMap.mpr ⟨.failed x, List.mem_of_getElem? h, by simp [gTask]⟩
+
+theorem mem_gTask_erase (l : List GoPh) (i x : Nat) (hx : x ∈ (l.eraseIdx i).flatMap gTask) :
+    x ∈ l.flatMap gTask := by
+  obtain ⟨a, ha, hxa⟩ := List.mem_flatMap.mp hx
+  exact List.mem_flatMap.mpr ⟨a, List.mem_of_mem_eraseIdx ha, hxa⟩
+
+theorem mem_gTask_of_get (l : List GoPh) (i t : Nat) (h : l[i]? = some (.enq t)) : t ∈ l.flatMap gTask :=
+  List.mem_flatMap.mpr ⟨.enq t, List.mem_of_getElem? h, by simp [gTask]⟩
+
+/-- the ghosts `inflight` / `late`: before the close both are empty and nothing was dropped; after it every `Go`
+    call still in flight is recorded in `inflight`; whatever was dropped, or queued after the close, came from such a
+    call; and once the dispatcher has returned (its drain loop saw the queue empty) everything in the queue was put
+    there after the close -/
+structure LInv (s : St) : Prop where
+  pre  : s.closed = false → s.late = [] ∧ s.dropped = [] ∧ s.inflight = []
+  goin : s.closed = true → ∀ t ∈ s.goers.flatMap gTask, t ∈ s.inflight
+  dl   : ∀ t, t ∈ s.dropped ∨ t ∈ s.late → t ∈ s.inflight
+  exq  : s.disp = .exited → ∀ t ∈ s.queue, t ∈ s.late
+
+theorem linv_init : LInv init := by constructor <;> simp [init]
+
+theorem linv_step (g : Cfg) (hnd : g.nodrain = false) (s s' : St) (a : Act) (hS : SInv g s) (h : LInv s)
+    (hs : step g s a = some s') : LInv s' := by
+  obtain ⟨h1, h2, h3, h4⟩ := h
+  cases a with
+  | go t =>
+    simp only [step] at hs
+    split at hs
+    · cases hs; exact ⟨h1, h2, h3, h4⟩
+    · cases hs
+      refine ⟨?_, ?_, ?_, h4⟩
+      · intro hc; simp only at hc; simpa [hc] using h1 hc
+      · intro hc x hx
+        simp only at hc
+        simp only [hc, if_true, List.flatMap_append, List.mem_append] at hx ⊢
+        rcases hx with hx | hx
+        · exact .inl (h2 hc x hx)
+        · simp [gTask] at hx; exact .inr (by simp [hx])
+      · intro x hx
+        have := h3 x hx
+        simp only
+        split
+        · exact List.mem_append.mpr (.inl this)
+        · exact this
+  | goUndo i =>
+    simp only [step] at hs
+    split at hs
+    · rename_i t hg
+      cases hs
+      exact ⟨h1, fun hc x hx => h2 hc x (mem_gTask_set s.goers i t x hg hx), h3, h4⟩
+    · cases hs
+  | goEnq i =>
+    simp only [step] at hs
+    split at hs
+    · rename_i t hg
+      split at hs
+      · cases hs
+        refine ⟨?_, fun hc x hx => h2 hc x (mem_gTask_erase s.goers i x hx), ?_, ?_⟩
+        · intro hc; simp only at hc; simpa [hc] using h1 hc
+        · intro x hx
+          simp only at hx ⊢
+          by_cases hc : s.closed = true
+          · simp only [hc, if_true, List.mem_append, List.mem_singleton] at hx
+            rcases hx with hx | hx | hx
+            · exact h3 x (.inl hx)
+            · exact h3 x (.inr hx)
+            · rw [hx]; exact h2 hc t (mem_gTask_of_get s.goers i t hg)
+          · simp only [hc] at hx
+            exact h3 x (by simpa using hx)
+        · intro he x hx
+          simp only at he hx ⊢
+          have hc : s.closed = true := hS.exited (by simp [he])
+          simp only [hc, if_true, List.mem_append, List.mem_singleton] at hx ⊢
+          rcases hx with hx | hx
+          · exact .inl (h4 he x hx)
+          · exact .inr hx
+      · split at hs
+        · cases hs
+          exact ⟨h1, fun hc x hx => h2 hc x (mem_gTask_erase s.goers i x hx), h3, by simp⟩
+        · cases hs
+    · cases hs
+  | goDrop i =>
+    simp only [step] at hs
+    split at hs
+    · rename_i t hg
+      split at hs
+      · rename_i hc
+        cases hs
+        refine ⟨fun hc' => (by simp only at hc'; rw [hc] at hc'; cases hc'),
+          fun hc x hx => h2 hc x (mem_gTask_erase s.goers i x hx), ?_, h4⟩
+        intro x hx
+        simp only [List.mem_append, List.mem_singleton] at hx
+        rcases hx with (hx | hx) | hx
+        · exact h3 x (.inl hx)
+        · rw [hx]; exact h2 hc t (mem_gTask_of_get s.goers i t hg)
+        · exact h3 x (.inr hx)
+      · cases hs
+    · cases hs
+  | wFinish i p => simp only [step] at hs; split at hs <;> first | (cases hs; exact ⟨h1, h2, h3, h4⟩) | cases hs
+  | wTake i =>
+    simp only [step] at hs
+    split at hs
+    · split at hs
+      · rename_i t q hq; cases hs
+        exact ⟨h1, h2, h3, fun he x hx => h4 he x (by rw [hq]; exact List.mem_cons_of_mem _ hx)⟩
+      · cases hs; exact ⟨h1, h2, h3, h4⟩
+    · cases hs
+  | wRdv i k =>
+    simp only [step] at hs
+    split at hs
+    · split at hs
+      · cases hs; exact ⟨h1, fun hc x hx => h2 hc x (mem_gTask_erase s.goers k x hx), h3, h4⟩
+      · cases hs
+    · cases hs
+  | wExit i => simp only [step] at hs; split at hs <;> first | (cases hs; exact ⟨h1, h2, h3, h4⟩) | cases hs
+  | dRecv =>
+    simp only [step] at hs
+    split at hs
+    · cases hs; exact ⟨h1, h2, h3, by simp⟩
+    · cases hs
+  | dExit =>
+    simp only [step] at hs
+    split at hs
+    · split at hs
+      · cases hs; exact ⟨h1, h2, h3, by simp [hnd]⟩
+      · cases hs
+    · cases hs
+  | dDrain =>
+    simp only [step] at hs
+    split at hs
+    · cases hs; exact ⟨h1, h2, h3, by simp⟩
+    · rename_i hd hq; cases hs; exact ⟨h1, h2, h3, by simp [hq]⟩
+    · cases hs
+  | dFork =>
+    simp only [step] at hs
+    split at hs
+    · split at hs <;> (cases hs; exact ⟨h1, h2, h3, by simp⟩)
+    · cases hs
+  | dUndo => simp only [step] at hs; split at hs <;> first | (cases hs; exact ⟨h1, h2, h3, by simp⟩) | cases hs
+  | dFinish p => simp only [step] at hs; split at hs <;> first | (cases hs; exact ⟨h1, h2, h3, by simp⟩) | cases hs
+  | stopAdd =>
+    simp only [step] at hs
+    split at hs
+    · cases hs
+    · cases hs; exact ⟨h1, h2, h3, h4⟩
+  | stopClose =>
+    simp only [step] at hs
+    split at hs
+    · rename_i hc; cases hs
+      simp at hc
+      have hpre := h1 hc.2
+      refine ⟨by simp, fun _ x hx => hx, ?_, h4⟩
+      intro x hx
+      simp [hpre.1, hpre.2.1] at hx
+    · cases hs
+
+theorem linv_run (g : Cfg) (hnd : g.nodrain = false) (as : List Act) :
+    ∀ s, SInv g s → LInv s → LInv (run g s as) := by
+  induction as with
+  | nil => intro s _ h; exact h
+  | cons a as ih =>
+    intro s hS h
+    simp only [run]
+    split
+    · rename_i s' hs; exact ih s' (sinv_step g s s' a hS hs) (linv_step g hnd s s' a hS h hs)
+    · exact ih s hS h
+
+/-- what is left in the queue for good: its contents once the dispatcher goroutine has returned -/
+def stranded (s : St) : List Nat := if s.disp = .exited then s.queue else []
+
+/-- Tasks are dropped (their `Go` returned through `<-chClose`) or stranded in the queue only if their `Go` call had
+    not returned when `Stop` closed the channel, or was made after that. -/
+theorem c19_lost_only_racing_stop (g : Cfg) (hnd : g.nodrain = false) (as : List Act) :
+    let s := run g init as
+    ∀ t, t ∈ s.dropped ∨ t ∈ stranded s → t ∈ s.inflight := by
+  intro s t ht
+  have h := linv_run g hnd as init (sinv_init g) linv_init
+  rcases ht with ht | ht
+  · exact h.dl t (.inl ht)
+  · unfold stranded at ht
+    split at ht
+    · rename_i he; exact h.dl t (.inr (h.exq he t ht))
+    · cases ht
+
+/-- Exactly-once, liveness half — **the full statement, `Stop` included**: from every reachable state there is a
+    finite continuation consisting only of the pool's own steps and task ends (no new `Go`, no `Stop`) after which
+    nothing is owed and nothing is running; then the tasks handed over are, as a multiset, exactly those that have
+    run, those whose `Go` gave up at `Stop`, and those stranded in the queue behind the returned dispatcher — and the
+    last two kinds only contain tasks whose `Go` call raced or followed `Stop` (`inflight`).  Hence **every task
+    whose `Go` had returned before `Stop` has run** (made explicit in `c19_handed_before_stop_runs`); with
+    `c19_at_most_once`: exactly once.  Every internal step decreases a measure, so under a fair scheduler with
+    terminating tasks every schedule is such a continuation. -/
+theorem c19_completes (g : Cfg) (hnd : g.nodrain = false) (as : List Act) :
     ∃ bs, (∀ b ∈ bs, Act.internal b = true) ∧
       let s' := run g (run g init as) bs
-      pendingTasks s' = [] ∧ runningTasks s' = [] ∧ s'.dropped = [] ∧ s'.handed = (run g init as).handed ∧
-      s'.done.Perm (run g init as).handed := by
+      owedTasks s' = [] ∧ runningTasks s' = [] ∧ s'.handed = (run g init as).handed ∧
+      (s'.done ++ s'.dropped ++ stranded s').Perm (run g init as).handed ∧
+      (∀ t ∈ (run g init as).handed, t ∉ s'.inflight → t ∈ s'.done) := by
   have hS := sinv_run g as init (sinv_init g)
-  obtain ⟨bs, h1, h2, h3, h4, h5⟩ := completes_aux g (mu (run g init as)) (run g init as) hS hst (Nat.le_refl _)
-  refine ⟨bs, h1, h2, h3, ?_, h4, ?_⟩
-  · -- nothing dropped: the channel was never closed
-    have hS' := sinv_run g bs (run g init as) hS
+  obtain ⟨bs, h1, h2, h3, h4, _⟩ := completes_aux g (mu (run g init as)) (run g init as) hS (Nat.le_refl _)
+  have hrun := run_append g as bs init
+  have hcons := c19_conservation g (as ++ bs)
+  have hlost := c19_lost_only_racing_stop g hnd (as ++ bs)
+  rw [← hrun] at hcons hlost
+  have hperm : ((run g (run g init as) bs).done ++ (run g (run g init as) bs).dropped ++
+      stranded (run g (run g init as) bs)).Perm (run g init as).handed := by
+    rw [← h4]
+    refine List.Perm.trans ?_ hcons
+    generalize run g (run g init as) bs = s' at h2 h3
+    simp only [owedTasks, List.append_eq_nil_iff] at h2
+    simp only [runningTasks, List.append_eq_nil_iff] at h3
+    obtain ⟨⟨hg, hdp⟩, hq⟩ := h2
+    obtain ⟨hw, hdr⟩ := h3
+    have hdt : dTask s'.disp = [] := by
+      revert hdp hdr; cases s'.disp <;> simp [dTask, dPend, dRun]
+    have hqs : s'.queue = stranded s' := by
+      unfold stranded
+      split at hq
+      · rename_i he; simp [he]
+      · rename_i he; simp [he, hq]
+    simp only [allTasks, hg, hw, hdt, List.nil_append, List.append_nil, hqs]
+    -- stranded ++ done ++ dropped  ~  done ++ dropped ++ stranded
+    exact (List.perm_append_comm (l₁ := stranded s') (l₂ := s'.done ++ s'.dropped)).symm.trans
+      (by simp [List.append_assoc])
+  refine ⟨bs, h1, h2, h3, h4, hperm, ?_⟩
+  intro t ht hni
+  have hm : t ∈ (run g (run g init as) bs).done ++ (run g (run g init as) bs).dropped ++
+      stranded (run g (run g init as) bs) := hperm.mem_iff.mpr ht
+  simp only [List.mem_append] at hm
+  rcases hm with (hm | hm) | hm
+  · exact hm
+  · exact absurd (hlost t (.inl hm)) hni
+  · exact absurd (hlost t (.inr hm)) hni
+
+/-- the ghost `inflight` made explicit.  A task whose `Go` call is not in flight in a state where the channel is still
+    open never enters `inflight` later, whatever happens — as long as the same task is not handed over again. -/
+theorem not_inflight_step (g : Cfg) (t : Nat) (s s' : St) (a : Act) (hne : a ≠ .go t)
+    (hP : t ∉ s.goers.flatMap gTask ∧ t ∉ s.inflight) (hs : step g s a = some s') :
+    t ∉ s'.goers.flatMap gTask ∧ t ∉ s'.inflight := by
+  obtain ⟨hg, hi⟩ := hP
+  cases a with
+  | go t' =>
+    have htt : t' ≠ t := fun h => hne (by rw [h])
+    simp only [step] at hs
+    split at hs
+    · cases hs; exact ⟨hg, hi⟩
+    · cases hs
+      refine ⟨?_, ?_⟩
+      · simp only [List.flatMap_append, List.mem_append, not_or]
+        exact ⟨hg, by simp [gTask]; exact fun h => htt h.symm⟩
+      · simp only
+        split
+        · simp only [List.mem_append, List.mem_singleton, not_or]; exact ⟨hi, fun h => htt h.symm⟩
+        · exact hi
+  | goUndo i =>
+    simp only [step] at hs
+    split at hs
+    · rename_i t1 hgi; cases hs
+      exact ⟨fun hx => hg (mem_gTask_set s.goers i t1 t hgi hx), hi⟩
+    · cases hs
+  | goEnq i =>
+    simp only [step] at hs
+    split at hs
+    · split at hs
+      · cases hs; exact ⟨fun hx => hg (mem_gTask_erase s.goers i t hx), hi⟩
+      · split at hs
+        · cases hs; exact ⟨fun hx => hg (mem_gTask_erase s.goers i t hx), hi⟩
+        · cases hs
+    · cases hs
+  | goDrop i =>
+    simp only [step] at hs
+    split at hs
+    · split at hs
+      · cases hs; exact ⟨fun hx => hg (mem_gTask_erase s.goers i t hx), hi⟩
+      · cases hs
+    · cases hs
+  | wFinish i p => simp only [step] at hs; split at hs <;> first | (cases hs; exact ⟨hg, hi⟩) | cases hs
+  | wTake i =>
+    simp only [step] at hs
+    split at hs
+    · split at hs <;> (cases hs; exact ⟨hg, hi⟩)
+    · cases hs
+  | wRdv i k =>
+    simp only [step] at hs
+    split at hs
+    · split at hs
+      · cases hs; exact ⟨fun hx => hg (mem_gTask_erase s.goers k t hx), hi⟩
+      · cases hs
+    · cases hs
+  | wExit i => simp only [step] at hs; split at hs <;> first | (cases hs; exact ⟨hg, hi⟩) | cases hs
+  | dRecv => simp only [step] at hs; split at hs <;> first | (cases hs; exact ⟨hg, hi⟩) | cases hs
+  | dExit =>
+    simp only [step] at hs
+    split at hs
+    · split at hs <;> first | (cases hs; exact ⟨hg, hi⟩) | cases hs
+    · cases hs
+  | dDrain => simp only [step] at hs; split at hs <;> first | (cases hs; exact ⟨hg, hi⟩) | cases hs
+  | dFork =>
+    simp only [step] at hs
+    split at hs
+    · split at hs <;> (cases hs; exact ⟨hg, hi⟩)
+    · cases hs
+  | dUndo => simp only [step] at hs; split at hs <;> first | (cases hs; exact ⟨hg, hi⟩) | cases hs
+  | dFinish p => simp only [step] at hs; split at hs <;> first | (cases hs; exact ⟨hg, hi⟩) | cases hs
+  | stopAdd =>
+    simp only [step] at hs
+    split at hs
+    · cases hs
+    · cases hs; exact ⟨hg, hi⟩
+  | stopClose =>
+    simp only [step] at hs
+    split at hs
+    · cases hs; exact ⟨hg, hg⟩
+    · cases hs
+
+theorem not_inflight_run (g : Cfg) (t : Nat) (cs : List Act) (hne : ∀ a ∈ cs, a ≠ .go t) :
+    ∀ s, (t ∉ s.goers.flatMap gTask ∧ t ∉ s.inflight) →
+      t ∉ (run g s cs).goers.flatMap gTask ∧ t ∉ (run g s cs).inflight := by
+  induction cs with
+  | nil => intro s h; exact h
+  | cons a cs ih =>
+    intro s h
+    have hne' : ∀ a ∈ cs, a ≠ .go t := fun b hb => hne b (List.mem_cons_of_mem _ hb)
+    simp only [run]
+    split
+    · rename_i s' hs
+      exact ih hne' s' (not_inflight_step g t s s' a (hne a (by simp)) h hs)
+    · exact ih hne' s h
+
+theorem handed_mono_step (g : Cfg) (s s' : St) (a : Act) (hs : step g s a = some s') (t : Nat)
+    (ht : t ∈ s.handed) : t ∈ s'.handed := by
+  by_cases hi : Act.internal a = true
+  · rw [(internal_decreases g s s' a hi hs).2.1]; exact ht
+  · cases a with
+    | go t' =>
+      simp only [step] at hs
+      split at hs <;> (cases hs; exact List.mem_append.mpr (.inl ht))
+    | stopAdd =>
+      simp only [step] at hs
+      split at hs
+      · cases hs
+      · cases hs; exact ht
+    | stopClose =>
+      simp only [step] at hs
+      split at hs
+      · cases hs; exact ht
+      · cases hs
+    | _ => simp [Act.internal] at hi
+
+theorem handed_mono_run (g : Cfg) (t : Nat) (cs : List Act) : ∀ s, t ∈ s.handed → t ∈ (run g s cs).handed := by
+  induction cs with
+  | nil => intro s h; exact h
+  | cons a cs ih =>
+    intro s h
+    simp only [run]
+    split
+    · rename_i s' hs; exact ih s' (handed_mono_step g s s' a hs t h)
+    · exact ih s h
+
+/-- **Every task handed to the pool before it is stopped runs** (with `c19_at_most_once`: exactly once).  Take any
+    reachable state `s0` in which `Stop` has not closed the channel, and a task `t` that was handed over and whose
+    `Go` call has returned (it is not among the `Go` calls in flight).  Whatever happens next — more submissions of
+    other tasks, `Stop` at any moment, any scheduling — from the state reached there is a finite continuation of the
+    pool's own steps and task ends after which `t` has run. -/
+theorem c19_handed_before_stop_runs (g : Cfg) (hnd : g.nodrain = false) (as cs : List Act) (t : Nat)
+    (hc : (run g init as).closed = false) (ht : t ∈ (run g init as).handed)
+    (hret : t ∉ (run g init as).goers.flatMap gTask) (hne : ∀ a ∈ cs, a ≠ .go t) :
+    ∃ bs, (∀ b ∈ bs, Act.internal b = true) ∧ t ∈ (run g (run g (run g init as) cs) bs).done := by
+  have hL := linv_run g hnd as init (sinv_init g) linv_init
+  have hi0 : t ∉ (run g init as).inflight := by rw [(hL.pre hc).2.2]; simp
+  rw [run_append]
+  obtain ⟨bs, h1, _, _, _, _, h6⟩ := c19_completes g hnd (as ++ cs)
+  refine ⟨bs, h1, h6 t ?_ ?_⟩
+  · rw [← run_append]; exact handed_mono_run g t cs _ ht
+  · have hbs : ∀ a ∈ cs ++ bs, a ≠ .go t := by
+      intro a ha
+      rcases List.mem_append.mp ha with ha | ha
+      · exact hne a ha
+      · intro h; have := h1 a ha; rw [h] at this; simp [Act.internal] at this
+    have := (not_inflight_run g t (cs ++ bs) hbs (run g init as) ⟨hret, hi0⟩).2
+    rw [run_append, ← List.append_assoc, ← run_append g (as ++ cs) bs] at this
+    exact this
+
+/-- Corollary, without `Stop`: nothing is dropped or stranded, `done` is a permutation of `handed`. -/
+theorem c19_completes_without_stop (g : Cfg) (hnd : g.nodrain = false) (as : List Act)
+    (hst : (run g init as).stopAdd = false) :
+    ∃ bs, (∀ b ∈ bs, Act.internal b = true) ∧
+      let s' := run g (run g init as) bs
+      pendingTasks s' = [] ∧ runningTasks s' = [] ∧ s'.dropped = [] ∧ s'.done.Perm (run g init as).handed := by
+  have hS := sinv_run g as init (sinv_init g)
+  obtain ⟨bs, h1, h2, h3, h4, h5⟩ := completes_aux g (mu (run g init as)) (run g init as) hS (Nat.le_refl _)
+  have hS' := sinv_run g bs (run g init as) hS
+  have hcl : (run g (run g init as) bs).closed = false := by
+    rw [h5]
+    cases hc : (run g init as).closed with
+    | false => rfl
+    | true => have := hS.closed hc; rw [hst] at this; cases this
+  have hne : (run g (run g init as) bs).disp ≠ .exited := by
+    intro he
+    have := hS'.exited (by simp [he])
+    rw [hcl] at this; cases this
+  have hdrop : (run g (run g init as) bs).dropped = [] := by
     cases hd : (run g (run g init as) bs).dropped with
     | nil => rfl
     | cons x xs =>
-      have hc := hS'.closed (hS'.dropped (by rw [hd]; simp))
-      rw [h5] at hc; cases hc
-  · -- conservation with every other component empty
-    have hrun : run g (run g init as) bs = run g init (as ++ bs) := by
-      clear h1 h2 h3 h4 h5 hS hst
-      generalize init = s0
-      induction as generalizing s0 with
-      | nil => rfl
-      | cons a as ih =>
-        simp only [List.cons_append, run]
-        split <;> exact ih _
-    have hcons := c19_conservation g (as ++ bs)
-    rw [← hrun] at hcons
-    rw [← h4]
-    have hS' := sinv_run g bs (run g init as) hS
-    have hdrop : (run g (run g init as) bs).dropped = [] := by
-      cases hd : (run g (run g init as) bs).dropped with
-      | nil => rfl
-      | cons x xs =>
-        have hc := hS'.closed (hS'.dropped (by rw [hd]; simp))
-        rw [h5] at hc; cases hc
-    have hall : allTasks (run g (run g init as) bs) = (run g (run g init as) bs).done := by
-      generalize run g (run g init as) bs = s' at h2 h3 hdrop
-      simp only [pendingTasks, List.append_eq_nil_iff] at h2
-      simp only [runningTasks, List.append_eq_nil_iff] at h3
-      obtain ⟨⟨hg, hq⟩, hdp⟩ := h2
-      obtain ⟨hw, hdr⟩ := h3
-      have hdt : dTask s'.disp = [] := by
-        revert hdp hdr; cases s'.disp <;> simp [dTask, dPend, dRun]
-      simp [allTasks, hg, hq, hw, hdt, hdrop]
-    rw [hall] at hcons
-    exact hcons
+      have hc := hS'.dropped (by rw [hd]; simp)
+      rw [hcl] at hc; cases hc
+  have hcons := c19_conservation g (as ++ bs)
+  rw [← run_append] at hcons
+  rw [← h4]
+  refine ⟨bs, h1, ?_⟩
+  show pendingTasks (run g (run g init as) bs) = [] ∧ runningTasks (run g (run g init as) bs) = [] ∧
+    (run g (run g init as) bs).dropped = [] ∧
+    (run g (run g init as) bs).done.Perm (run g (run g init as) bs).handed
+  generalize run g (run g init as) bs = s' at h2 h3 hne hdrop hcons
+  simp only [owedTasks, hne, if_false, List.append_eq_nil_iff] at h2
+  obtain ⟨⟨hg, hdp⟩, hq⟩ := h2
+  refine ⟨by simp [pendingTasks, hg, hq, hdp], h3, hdrop, ?_⟩
+  simp only [runningTasks, List.append_eq_nil_iff] at h3
+  obtain ⟨hw, hdr⟩ := h3
+  have hdt : dTask s'.disp = [] := by
+    revert hdp hdr; cases s'.disp <;> simp [dTask, dPend, dRun]
+  simpa [allTasks, hg, hq, hw, hdt, hdrop] using hcons
 
 /-! ### the defect that was repaired (pinned tree: `leak = true`) -/
 
@@ -636,21 +1070,39 @@ example :
     idle s0 ∧ s0.conc = 0 ∧ runningTasks s = [3, 4] := by
   decide
 
-/-! ### tasks queued at Stop (known finding C19-stop-drop) -/
+/-! ### tasks queued at Stop (former finding C19-stop-drop, repaired: the dispatcher drains the queue) -/
 
-/-- Full statement "every task handed to a pool before it is stopped runs" is **false** on the tree:
-    `New(1, 2)`: task 1 runs on the dispatcher, task 2 is accepted into the queue (`Go` has returned),
-    `Stop`, task 1 returns, the dispatcher's `select` takes `<-chClose` and returns.  Task 2 was handed
-    over before `Stop`, is still in the queue, and no step other than a new `Go` is enabled any more. -/
+/-- Before the repair (`nodrain = true`: the dispatcher returns as soon as its `select` takes `<-chClose`) the full
+    statement was **false**: `New(1, 2)`: task 1 runs on the dispatcher, task 2 is accepted into the queue (`Go` has
+    returned), `Stop`, task 1 returns, the dispatcher takes `<-chClose` and returns.  Task 2 was handed over before
+    `Stop`, is still in the queue, and no step other than a new `Go` is enabled any more. -/
 theorem c19_stop_drop_counterexample :
-    let g : Cfg := { maxC := 0, cap := 2 }
+    let g : Cfg := { maxC := 0, cap := 2, nodrain := true }
     let s := run g init [.go 1, .goUndo 0, .goEnq 0, .dRecv, .dFork, .dUndo, .go 2, .goUndo 0, .goEnq 0,
                          .stopAdd, .stopClose, .dFinish false, .dExit]
     s.handed = [1, 2] ∧ s.done = [1] ∧ s.queue = [2] ∧ s.goers = [] ∧ s.workers = [] ∧ s.disp = .exited ∧
-      ∀ a, Act.internal a = true → step g s a = none := by
-  refine ⟨by decide, by decide, by decide, by decide, by decide, by decide, ?_⟩
+      s.inflight = [] ∧ ∀ a, Act.internal a = true → step g s a = none := by
+  refine ⟨by decide, by decide, by decide, by decide, by decide, by decide, by decide, ?_⟩
   intro a ha
   cases a <;> simp [Act.internal] at ha <;> simp [run, step, init]
+
+/-- the same schedule on the repaired tree: the dispatcher enters its drain loop and task 2 runs -/
+example :
+    let g : Cfg := { maxC := 0, cap := 2 }
+    let s := run g init [.go 1, .goUndo 0, .goEnq 0, .dRecv, .dFork, .dUndo, .go 2, .goUndo 0, .goEnq 0,
+                         .stopAdd, .stopClose, .dFinish false, .dExit, .dDrain, .dFinish false, .dDrain]
+    s.handed = [1, 2] ∧ s.done = [1, 2] ∧ s.queue = [] ∧ s.disp = .exited ∧ s.inflight = [] := by
+  decide
+
+/-- what `Stop` may still leave behind: a `Go` call that had not returned when `Stop` closed the channel (here: blocked
+    on the full queue) gives up — its task is dropped, and it is recorded in `inflight` -/
+example :
+    let g : Cfg := { maxC := 0, cap := 1 }
+    let s := run g init [.go 1, .goUndo 0, .goEnq 0, .dRecv, .dFork, .dUndo, .go 2, .goUndo 0, .goEnq 0,
+                         .go 3, .goUndo 0, .stopAdd, .stopClose, .goDrop 0, .dFinish false, .dExit, .dDrain,
+                         .dFinish false, .dDrain]
+    s.done = [1, 2] ∧ s.dropped = [3] ∧ s.inflight = [3] ∧ s.disp = .exited := by
+  decide
 
 end TPool
 
